@@ -722,7 +722,7 @@ class Interp:
     def ev_Name(self, e, env, cx):
         if e.id in env:
             return env[e.id]
-        if e.id in self.pm.classes:
+        if e.id in self.pm.classes or self.record_types().get(e.id, (0, 0, None))[2] is not None:
             return V("class", cls={e.id})
         t = self.module_table(e.id, cx)
         if t is not None:
@@ -780,6 +780,13 @@ class Interp:
         if b.k == "rec":
             if b.fields and e.attr in b.fields:
                 return add_deps(b.fields[e.attr], b.deps)
+            rcls = self.record_types().get(b.const, (0, 0, None))[2]
+            pm_ = next((x for x in rcls.body if isinstance(x, ast.FunctionDef) and x.name == e.attr
+                        and is_property(x)), None) if rcls is not None else None
+            if pm_ is not None:
+                out = self.run_record_method(b.const, pm_, b, [], {}, cx)
+                if out is not None:
+                    return out
             return V("meth", recv=b, const=e.attr)
         if b.k in ("list", "dict"):
             return V("meth", recv=b, const=e.attr)
@@ -1055,6 +1062,10 @@ class Interp:
                 return join([self.inline(cn, owner, m, is_self, a2, kw, cx, e) for cn, owner, m, is_self in fv.meths])
             if fv.recv is not None:
                 return self.call_on_value(fv.recv, fv.const, e, args, kw, alld, env, cx)
+        if isinstance(f, ast.Name) and f.id in env and env[f.id].k == "class" and env[f.id].cls \
+                and all(c in self.record_types() for c in env[f.id].cls):
+            # cls(...) in a classmethod of a record class (or a local naming it): the record is built
+            return join([self.call_name(c, e, args, kw, alld, env, cx) for c in sorted(env[f.id].cls)])
         if isinstance(f, ast.Name):
             return self.call_name(f.id, e, args, kw, alld, env, cx)
         if isinstance(f, ast.Attribute) and isinstance(f.value, ast.Call) and isinstance(f.value.func, ast.Name) \
@@ -1218,20 +1229,12 @@ class Interp:
         if b.k == "rec":
             _names, _d, rcls = self.record_types().get(b.const, ([], {}, None))
             m = next((x for x in rcls.body if isinstance(x, ast.FunctionDef) and x.name == name), None) if rcls else None
-            key = ("<record>", b.const, name)
-            if m is None or key in cx.stack or len(cx.stack) > MAX_DEPTH:
+            out = self.run_record_method(b.const, m, b, args, kw, cx) if m is not None else None
+            if out is None:
                 if name in ("_replace", "_asdict"):
                     return b
                 cx.unknown.append(f"call of unknown method {b.const}.{name}() in {where[1]}")
                 return raw(alld, deg={})
-            cx.stack.append(key)
-            env2 = self.bind_params(m, args, kw, 1, cx)
-            env2[m.args.args[0].arg] = b
-            saved_ctl, saved_taint = len(cx.ctl), len(cx.taint)
-            out = self.run_fn(m.body, env2, cx)
-            del cx.ctl[saved_ctl:]
-            del cx.taint[saved_taint:]
-            cx.stack.pop()
             return out
         if b.k == "list":
             if name == "copy":
@@ -1294,6 +1297,13 @@ class Interp:
                     decs = {norm(d) for d in m.decorator_list} if m is not None else set()
                     if m is not None and decs & {"staticmethod", "classmethod"}:
                         outs.append(self.inline(cn, owner, m, False, args, kw, cx, e))
+                elif self.record_types().get(cn, (0, 0, None))[2] is not None:
+                    m = next((x for x in self.record_types()[cn][2].body
+                              if isinstance(x, ast.FunctionDef) and x.name == name), None)
+                    if m is not None and (is_static(m) or is_classmethod(m)):
+                        out = self.run_record_method(cn, m, None, args, kw, cx)
+                        if out is not None:
+                            outs.append(out)
             if outs:
                 return join(outs)
             return raw(alld, deg={})
@@ -1585,6 +1595,24 @@ class Interp:
             return raw(alld, deg={})
         cx.unknown.append(f"call of unknown function {n}() in {where[1]}")
         return raw(alld, deg={})
+
+    def run_record_method(self, rname, m, recv, args, kw, cx):
+        """a method of a plain record class (NamedTuple / dataclass outside the hierarchies) run in place: on a record value
+        (recv), or through the class for a class / static method (recv None). None when it cannot be run (recursion, depth)."""
+        key = ("<record>", rname, m.name)
+        if key in cx.stack or len(cx.stack) > MAX_DEPTH:
+            return None
+        cx.stack.append(key)
+        skip = 0 if is_static(m) else 1
+        env2 = self.bind_params(m, args, kw, skip, cx)
+        if skip:
+            env2[m.args.args[0].arg] = V("class", cls={rname}) if (is_classmethod(m) or recv is None) else recv
+        saved_ctl, saved_taint = len(cx.ctl), len(cx.taint)
+        out = self.run_fn(m.body, env2, cx)
+        del cx.ctl[saved_ctl:]
+        del cx.taint[saved_taint:]
+        cx.stack.pop()
+        return out
 
     # -------------------------------------------------------------------------------------------- inlining
     def bind_params(self, fn, args, kw, skip, cx):
